@@ -9,6 +9,7 @@ oracle         merged stream of probes on #enter / #exit / #value / #error / #lo
 import json
 
 import core
+import m2corr
 import pylite
 import progrun
 import pyprog
@@ -179,6 +180,8 @@ def witness(chk):
 
 def run(chk):
     import ptera
+    m2corr.ast_leg(chk, 80 if chk.tier == "quick" else 1500)
+    m2corr.exec_leg(chk, 100 if chk.tier == "quick" else 2000)
     rng = chk.rng
     chk.cov["rule"] = (
         "generated functions and generators with nested for/while/if/try/finally/with and early exits (return, "
